@@ -103,8 +103,9 @@ AddNode == /\ Spend /\ Len(nodes) < MaxNodes + 1 /\ Len(edges) = 0
            /\ \E sh \in Shapes, u \in BOOLEAN :
                 nodes' = Append(nodes, [name |-> Names[Len(nodes) + 1], shape |-> sh, uns |-> u])
            /\ UNCHANGED edges
-SetRootShape == /\ Wide /\ Spend /\ Len(nodes) = 1 /\ Len(edges) = 0 /\ nodes[1].shape = "obj"
-                /\ \E sh \in {"objT", "arr"} : nodes' = << [nodes[1] EXCEPT !.shape = sh] >>
+SetRootShape == /\ Spend /\ Len(nodes) = 1 /\ Len(edges) = 0 /\ nodes[1].shape = "obj"
+                /\ \E sh \in (IF Wide THEN {"objT", "arr"} ELSE {"objT"}) :
+                     nodes' = << [nodes[1] EXCEPT !.shape = sh] >>
                 /\ UNCHANGED edges
 AddEdge == /\ Spend /\ Len(edges) < MaxEdges
            /\ \E i, j \in 1..Len(nodes), pos \in Positions :
